@@ -67,7 +67,9 @@ def all_forests(max_nodes, tags=TAGS_SMALL, leaves=LEAVES_SMALL):
 
 NAMES = ["p", "ul", "ol", "li", "a", "br", "img", "strong", "em", "h1", "table", "input", "hr", "span"]
 HOSTILE = ["", "x", "a b", "<", ">", "&", '"', "'", "&lt;", "&#60;", "&amp;", ";", "#", "é", "\U0001f600",
-           "\t", "\n", " ", "]]>", "<!--", "</p>", " ", "\x00"[:0] or "z"]
+           "\t", "\n", " ", "]]>", "<!--", "</p>", " ", "\x00"[:0] or "z",
+           # strings that any Unicode normalisation or case mapping would change, also when they follow a tag's `>` or a quote
+           "\u0338", "\u0338x", "e\u0301", "\u0301", "\u1100\u1161", "\u212b", "\ufb01", "\u0130", "\u00df"]
 
 
 def rand_string(rng, hostile=True):
